@@ -173,7 +173,7 @@ Proof.
   - intros z. cbn. rewrite Hra. lia.
   - apply (Hshape []). reflexivity.
   - intros b Hin. pose proof (ctx_act K _ _ _ _ _ _ b C (or_intror Hin)) as A.
-    eapply heap_same_ok; [reflexivity| |exact A].
+    apply (heap_same_ok s _ stk b); [reflexivity| |exact A].
     intros o ->. exfalso. destruct (rest_kinds a rest Hsh _ Hin) as [Hf|[(l' & v' & Hb)|(l' & Hb)]]; discriminate.
 Qed.
 
@@ -185,7 +185,7 @@ Proof.
   pose proof (ctx_act K _ _ _ _ _ _ (ARel o n) C (or_introl eq_refl)) as A. cbn in A. destruct A as (Arel & An & Aproc).
   pose proof C as [I Ht E].
   assert (Ho : o < length (s_heap s)) by (apply releasing_lt; auto).
-  cbn in Hdo. unfold hobj in Arel, An, Aproc. rewrite Arel in Hdo. cbn [negb] in Hdo.
+  cbn [do_act] in Hdo. unfold hobj in Arel, An, Aproc. rewrite Arel in Hdo. cbn [negb] in Hdo.
   destruct (n <? length (o_mem (get_obj (s_heap s) o))) eqn:En.
   - apply Nat.ltb_lt in En. inversion Hdo; subst; clear Hdo. split; [|reflexivity].
     apply (act_rel_member s t stk' o n rest prog C En).
